@@ -6,7 +6,7 @@
    agreement follows from the agreement of the lookups. *)
 From PG Require Import Base Mapping Spec Mapper CacheWriter CacheReader CacheStructDefs
   MapperProofs CacheBytesProofs Domain WriterInv CacheProofs CacheLayout Stacktrace Java JavaProofs
-  BridgeC02 BridgeUtf8 Bridges.
+  BridgeC02 BridgeUtf8 Bridges SizeBounds.
 
 (* reading back the written bytes gives exactly the written structure *)
 Theorem C02_bytes_roundtrip : forall rs, dom32 rs = true -> sizes_ok rs = true ->
@@ -72,3 +72,24 @@ Proof. exact C02_typed_dom. Qed.
    (UTF-8 validity and positive end lines are theorems about parser output) *)
 Theorem C02_domain_of_parsed_bytes : forall b, simple_ok (recs b) = true -> dom32 (recs b) = true.
 Proof. exact dom32_recs_simple. Qed.
+
+(* purely input-level form: for every mapping file below 2 GiB whose records have non-empty names
+   and numbers < 2^32-1, the bytes written parse back and the cache answers every line query as the
+   specification (the size side condition is a theorem: the string section is at most twice the file) *)
+Theorem C02_from_bytes : forall b, lenN b < 2147483648 -> simple_ok (recs b) = true ->
+  parse (write_bytes b) = POk (C (recs b)) /\
+  (forall c m line file, c_remap_frame_lines (C (recs b)) c m line file = Sline (recs b) c m line file) /\
+  (forall c m p, c_remap_frame_params (C (recs b)) c m p = Sparams (recs b) c m p) /\
+  (forall c, c_remap_class (C (recs b)) c = Sclass (recs b) c) /\
+  (forall c m, c_remap_method (C (recs b)) c m = Smethod (recs b) c m).
+Proof.
+  intros b Hl Hs. repeat split; intros.
+  - apply parse_write_bytes; assumption.
+  - apply cache_lines_bytes; assumption.
+  - apply cache_params_bytes; assumption.
+  - apply cache_class_bytes; assumption.
+  - apply cache_method_bytes; assumption.
+Qed.
+
+Theorem C02_sizes_from_length : forall b : list N, lenN b < 2147483648 -> sizes_ok (recs b) = true.
+Proof. exact sizes_ok_of_length. Qed.
